@@ -67,6 +67,10 @@ fn body(t: i64, cls: &str) -> (usize, Vec<u8>) {
         "short" => (4, vec![0, 0]),
         "big" => (5000, vec![b'a'; 5000]),
         "badutf8" => (3, vec![0xff, 0xfe, 0x41]),
+        "utf8" => {
+            let v = "b\u{fc}cher.\u{4f8b}\u{3048}.example".as_bytes().to_vec();
+            (v.len(), v)
+        }
         x => panic!("unknown body class {x}"),
     }
 }
